@@ -431,6 +431,8 @@ def check_thread(eng, run):
 
 
 def run(eng, run):
+    from sa.anchors import verify as _verify_anchor_names
+    _verify_anchor_names(eng, run)
     run.not_decided += NOT_DECIDED
     check_guard(eng, run)
     check_limit_escapes(eng, run)
